@@ -1,6 +1,6 @@
 #!/usr/bin/env python3
 """Regenerates /verif/MANIFEST.json from the table below (kept valid at all times)."""
-import json, os
+import json, os, subprocess
 V = os.path.dirname(os.path.dirname(os.path.abspath(__file__)))
 props = [json.loads(l) for l in open(os.path.join(V, "properties.jsonl"))]
 
@@ -113,6 +113,10 @@ def chk(pid, d):
             "level_note": d["note"], "technique": d["tech"]}
 
 
+try:
+    NFIX = str(len([l for l in subprocess.run("git -C /repo log --format=%s c85c093..HEAD", shell=True, capture_output=True, text=True).stdout.splitlines() if l.startswith("fix:")])) + " (git log c85c093..HEAD)"
+except Exception:
+    NFIX = "Several"
 NA_REASON = "check still being built in this round (model, theorems and harness for the remote layer: DESIGN.md section 6, C17); not a claim that the technique cannot apply"
 m = {"version": 1, "setup_cmd": "./check setup",
      "hooks": {"guard": "verif",
@@ -122,7 +126,7 @@ m = {"version": 1, "setup_cmd": "./check setup",
      "engines": [{"name": "coq-proof+differential", "path": "/verif/check", "serves_properties": sorted(CLAIMED),
                   "kind_free_text": "Coq 8.16.1 development under /verif/coq (models, proofs, Props*.v) + Go harness under /verif/harness built against /repo (plain and scheduler-shimmed builds) + Python driver deciding verdicts"}],
      "checks": [chk(p["id"], CLAIMED[p["id"]]) for p in props if p["id"] in CLAIMED],
-     "notes": "All twenty properties are claimed at level proof: Coq theorems about hand-written executable models, tied to the code on every run by differential execution (models evaluated inside Coq by vm_compute) and by the theorems' predicates evaluated on what the implementation did; DESIGN.md section 0 describes the tree as built. Nineteen genuine defects of the pinned code were repaired by unguarded 'fix:' commits in /repo (known_findings.json lists them as fixed; no finding is left open). seeded/ holds sixty confirmed seeded changes from blind sub-agents with the check that catches each. A failing case must reproduce in a fresh harness process before it is reported; a broken proof or correspondence without a failing input is reported with the suffix no-failing-input-found.",
+     "notes": "All twenty properties are claimed at level proof: Coq theorems about hand-written executable models, tied to the code on every run by differential execution (models evaluated inside Coq by vm_compute) and by the theorems' predicates evaluated on what the implementation did; DESIGN.md section 0 describes the tree as built. " + NFIX + " genuine defects of the pinned code were repaired by unguarded 'fix:' commits in /repo (known_findings.json lists them as fixed; no finding is left open). seeded/ holds sixty confirmed seeded changes from blind sub-agents with the check that catches each. A failing case must reproduce in a fresh harness process before it is reported; a broken proof or correspondence without a failing input is reported with the suffix no-failing-input-found.",
      "not_applicable": [{"property_id": p["id"], "reason": NA_REASON} for p in props if p["id"] not in CLAIMED]}
 json.dump(m, open(os.path.join(V, "MANIFEST.json"), "w"), indent=1)
 print("MANIFEST: %d claimed, %d not claimed" % (len(m["checks"]), len(m["not_applicable"])))
